@@ -147,9 +147,47 @@ macro_rules! gv_cover {
 /// counts a failure only for the property it belongs to (harnesses are shared between properties).
 #[macro_export]
 macro_rules! pa {
-    ($p:literal, $c:expr) => {
-        assert!($c, concat!("[", $p, "] ", stringify!($c)))
-    };
+    ($p:literal, $c:expr) => {{
+        const GV_SELECTED: bool = $crate::nondet::tag_selected($p);
+        if GV_SELECTED {
+            assert!($c, concat!("[", $p, "] ", stringify!($c)))
+        }
+    }};
+}
+
+/// Harnesses are shared between properties and Kani's `assert!` is assert-then-assume: a failed assertion of
+/// ANOTHER property cuts off every path behind it and hides this property's own assertions (seeded C10-m2 was
+/// invisible to the C10 check for that reason). The driver therefore compiles the harness crate with the
+/// environment variable GV_PROP=<property under check>; an assertion whose tag list does not name that property
+/// is then not compiled in at all. Without the variable (native replay, self-test, witness search) every
+/// assertion is active.
+pub const fn tag_selected(tags: &str) -> bool {
+    match option_env!("GV_PROP") {
+        None => true,
+        Some(p) => {
+            let h = tags.as_bytes();
+            let n = p.as_bytes();
+            if n.len() == 0 {
+                return true;
+            }
+            let mut i = 0;
+            while i + n.len() <= h.len() {
+                let mut j = 0;
+                let mut m = true;
+                while j < n.len() {
+                    if h[i + j] != n[j] {
+                        m = false;
+                    }
+                    j += 1;
+                }
+                if m {
+                    return true;
+                }
+                i += 1;
+            }
+            false
+        }
+    }
 }
 
 /// Pseudo-random inputs for the native self-test of oracles and for the native search of a concrete witness
